@@ -1,0 +1,28 @@
+//go:build verif
+
+// Contracts for the verifier in /verif (govc). Comment-only: no declarations.
+
+package listener
+
+// ---- C18: a listener spec name~listen[~forward] selects the documented kind of listener, or is rejected
+//@ pred streamListenScheme(s string) := s == "tcp" || s == "unix" || s == "unixpacket"
+//@ pred stdioListenScheme(s string) := s == "stdin" || s == "stdio"
+//@ go func listenerKindMatchesScheme(l Listener) bool {
+//@    switch v := l.(type) {
+//@    case *InputOutputListener: return stdioListenScheme(v.Address.Scheme)
+//@    case *SocketListener: return streamListenScheme(v.Address.Scheme)
+//@    }
+//@    return false
+//@ }
+// The JSON object form is guarded by HasPrefix(data, "}") (sic) and can never be selected for well-formed
+// JSON; the contract is stated for the name~listen~forward form, which is the documented one.
+//@ go func tildeForm(data string) bool {
+//@    d := strings.TrimSpace(data)
+//@    return !(strings.HasPrefix(d, "}") && strings.HasSuffix(d, "}"))
+//@ }
+
+//@ func (ll *Listeners) UnmarshalFlag
+//@   property C18
+//@   ensures err == nil && tildeForm(data) ==> (*ll)[len(*ll)-1] != nil                                                                                           :appended_listener_exists
+//@   ensures err == nil && tildeForm(data) ==> listenerKindMatchesScheme((*ll)[len(*ll)-1])                                                                       :scheme_selects_the_documented_listener
+//@   ensures err != nil ==> spec_sameslice(*ll, old(*ll))                                                                                                          :list_unchanged_on_error
